@@ -68,9 +68,15 @@ def run(ctx, F):
                 return False
         return succ >= 1 and bool(cm)
 
+    def always_commits(h):
+        """A private helper that commits exactly once on every path and returns a plain value (e.g. builds the grant)."""
+        cm = live_calls(h, name="commit_pages")
+        return len(cm) == 1 and h.cfg.must_pass([cm[0].bb]) and not any(classify(t)[0] in ("Err",) for b, t, g in ret_table(h))
+
     for q, f in sorted(fns.items()):
-        commits = live_calls(f, name="commit_pages")
         prefix = re.sub(r"^<([\w:]+).*$", r"\1", q) if q.startswith("<") else q.rsplit("::", 1)[0]
+        commits = live_calls(f, name="commit_pages") + [c for c in live_calls(f) if c.q and c.q in F.fns and c.q not in fns and c.q.startswith(prefix + "::") and F.fns[c.q].blocks
+                                                         and c.name != "commit_pages" and always_commits(F.fns[c.q]) and not commits_on_success(F.fns[c.q])]
         helpers = [c for c in live_calls(f) if c.q and c.q in F.fns and c.q not in fns and c.q.startswith(prefix + "::") and F.fns[c.q].blocks and commits_on_success(F.fns[c.q])]
         for b, t, g in ret_table(f):
             kind, extra = classify(t)
@@ -99,7 +105,16 @@ def run(ctx, F):
             ctx.judge(ok, "C28.commit-on-ok", "%s: return of %s at bb%d" % (short(q), kind if kind != "delegate" else "%s(..)" % extra, b), expected=exp,
                       found="commits dominating=%d, commits reaching=%d" % (len(dom), len(reach)), where=where(f), key="C28.commit-on-ok|%s|%s|%d" % (q, kind, len(reach)))
         for c in commits:
-            a = [show(strip(f.flow.arg_tree(c, i))) for i in range(1, 3)]
+            if c.name == "commit_pages":
+                a = [show(strip(f.flow.arg_tree(c, i))) for i in range(1, 3)]
+            else:
+                # a committing helper: follow its own commit_pages(reserved, required) arguments back to this call's arguments
+                h = F.fns[c.q]
+                hc = live_calls(h, name="commit_pages")[0]
+                a = []
+                for i in (1, 2):
+                    ht = strip(h.flow.arg_tree(hc, i))
+                    a.append(show(strip(f.flow.arg_tree(c, ht[1] - 1))) if ht and ht[0] == "arg" and ht[1] - 1 < len(c.args) else "?")
             ctx.judge(a == ["arg3", "arg4"], "C28.commit-on-ok", "%s commits (reserved_pages, required_pages)" % short(q), expected="commit_pages(reserved_pages, required_pages, tls)", found=str(a), where=where(f, c.line),
                       key="C28.commit-on-ok|args|" + q)
     ctx.floor("C28.commit-on-ok", nret, 9, "return sites")
